@@ -223,7 +223,13 @@ class SetMembersMixin:
             # its path (hence the aliases' target path) is not known before.
             for alias in aliases_to_update:
                 with suppress(AliasResolutionError, CyclicAliasError):
-                    alias.target = value
+                    if value.is_alias and not value.resolved:  # type: ignore[union-attr]
+                        # An alias chain is never left partially resolved: aliases following
+                        # the replacement get unresolved too when the replacement is an unresolved alias.
+                        alias._target = None
+                        alias.target_path = value.path
+                    else:
+                        alias.target = value
         else:
             self.members[parts[0]].set_member(parts[1:], value)  # type: ignore[attr-defined]
 
